@@ -84,7 +84,8 @@ def cases_for(tok, key, alg, rnd, nmut, dist):
         dist["single-character mutations"] += 1
     # structural mutations
     for mut in ("del-signature", "empty-signature", "int-signature", "del-protected", "obj-protected", "general", "general-empty", "general-mixed",
-                "payload-missing", "payload-int", "protected-alg-none", "sig-arg-object", "sig-arg-array"):
+                "payload-missing", "payload-int", "protected-alg-none", "sig-arg-object", "sig-arg-array",
+                "inject-protected-object", "inject-protected-object-general", "inject-protected-int", "inject-protected-array"):
         t = dict(tok)
         exp = "F"
         sigarg = "-"
@@ -107,6 +108,18 @@ def cases_for(tok, key, alg, rnd, nmut, dist):
             bad = dict(entry, signature=mutate_char(rnd, entry["signature"]))
             t["signatures"] = {"general": [entry], "general-empty": [], "general-mixed": [bad, 5, entry, {}]}[mut]
             exp = "F" if mut == "general-empty" else "T"
+        elif mut.startswith("inject-protected"):
+            # a token signed over ".payload" (alg in the unprotected header only) gets a protected member that is
+            # NOT a string: that member is not covered by the signature and must make verification fail
+            if "protected" in t:
+                continue
+            val = {"inject-protected-int": 5, "inject-protected-array": ["x"]}.get(mut, {"crit": ["exp"], "exp": 0, "x": "injected"})
+            if mut.endswith("general"):
+                entry = {m: t.pop(m) for m in ("signature", "header") if m in t}
+                entry["protected"] = val
+                t["signatures"] = [entry]
+            else:
+                t["protected"] = val
         elif mut == "payload-missing":
             t.pop("payload")
         elif mut == "payload-int":
@@ -186,7 +199,7 @@ def correspond(ctx):
 
     st = runner.standard(
         ctx, [c for c, _ in hm], oracle, lambda c, o: True, on_disagree=on_disagree,
-        rule="tokens produced by the library for every signature algorithm; verification with the signing key / its public half in single, array, JWKSet, empty shapes and any/all; single-character mutations of payload, protected, signature and key; structural mutations; every composition of the payload text into feeds; multi-signature tokens. HMAC cases are also run on the extracted model; RSA/EC cases on the BigZ model inside coqc. non-trivial = all (every case exercises the verifier)",
+        rule="tokens produced by the library for every signature algorithm; verification with the signing key / its public half in single, array, JWKSet, empty shapes and any/all; single-character mutations of payload, protected, signature and key; structural mutations (incl. a non-string protected member injected into tokens signed with an unprotected header only); every composition of the payload text into feeds; multi-signature tokens. HMAC cases are also run on the extracted model; RSA/EC cases on the BigZ model inside coqc. non-trivial = all (every case exercises the verifier)",
         dist=dist)
     # ---- public-key tokens: implementation + oracle, model through coqc
     pkc = [c for c, _ in pk]
